@@ -8,16 +8,19 @@ diffs = []
 files = {}
 for i in range(0, len(args), 3):
     f, old, new = args[i:i+3]
-    src = files.get(f) or subprocess.check_output(["git", "-C", "/repo", "show", "HEAD:" + f]).decode()
-    if old not in src:
+    src = files.get(f) or subprocess.check_output(["git", "-C", "/repo", "show", "HEAD:" + f])
+    o, n = old.encode(), new.encode()
+    if o not in src and o.replace(b"\n", b"\r\n") in src:
+        o, n = o.replace(b"\n", b"\r\n"), n.replace(b"\n", b"\r\n")
+    if o not in src:
         sys.exit(f"pattern not found in {f}: {old!r}")
-    files[f] = src.replace(old, new, 1)
+    files[f] = src.replace(o, n, 1)
 for f, dst in files.items():
     a = os.path.join(tmp, "a", f); b = os.path.join(tmp, "b", f)
     os.makedirs(os.path.dirname(a), exist_ok=True); os.makedirs(os.path.dirname(b), exist_ok=True)
-    open(a, "w").write(subprocess.check_output(["git", "-C", "/repo", "show", "HEAD:" + f]).decode()); open(b, "w").write(dst)
-    r = subprocess.run(["diff", "-u", "--label", "a/" + f, "--label", "b/" + f, a, b], capture_output=True, text=True)
+    open(a, "wb").write(subprocess.check_output(["git", "-C", "/repo", "show", "HEAD:" + f])); open(b, "wb").write(dst)
+    r = subprocess.run(["diff", "-u", "--label", "a/" + f, "--label", "b/" + f, a, b], capture_output=True)
     diffs.append(r.stdout)
 os.makedirs(os.path.dirname(os.path.abspath(out)), exist_ok=True)
-open(out, "w").write("".join(diffs))
+open(out, "wb").write(b"".join(diffs))
 shutil.rmtree(tmp)
